@@ -5,15 +5,20 @@ function on values that are concrete on the path; anything else raises Unsupport
 import re
 import z3
 from .core import Unsupported, is_sym, conc, Outcome
-from .gossa import (GoPanic, GoExit, Ptr, Cell, Slice, Iface, Closure, GoMap, go_str, cp, wrap, decode_rune)
+from .gossa import (GoPanic, GoExit, Ptr, Cell, Slice, Iface, Closure, GoMap, go_str, cp, wrap, decode_rune, SymName, SymRope)
 
 INTR = {}
+SYM_MARK = '\x01SYM\x01'
 
 
 def intr(*names):
     def d(f):
+        def g(M, a):
+            if any(isinstance(x, (SymName, SymRope)) for x in a):
+                a = [x.force(M) if isinstance(x, (SymName, SymRope)) else x for x in a]
+            return f(M, a)
         for n in names:
-            INTR[n] = f
+            INTR[n] = g
         return f
     return d
 
@@ -60,6 +65,10 @@ def _err_invoke(M, a):
 
 def fmt_value(M, v, verb='v', plus=False):
     """%v / %s / %d of a Go value (as held in an `any`)"""
+    if isinstance(v, Iface) and isinstance(v.v, SymName):
+        v = Iface(v.t, v.v.force(M))
+    if isinstance(v, SymName):
+        v = v.force(M)
     if isinstance(v, Iface):
         if v.t == ERR_T:
             return v.v.msg
@@ -76,6 +85,11 @@ def fmt_value(M, v, verb='v', plus=False):
 
 
 def fmt_plain(v, verb):
+    if is_sym(v):
+        c = conc(v)
+        if c is None:
+            return SYM_MARK       # a symbolic number printed into text: visible to the checks as a marker
+        v = c
     if isinstance(v, bool):
         return 'true' if v else 'false'
     if isinstance(v, int):
@@ -203,20 +217,37 @@ def varargs(a):
     return [] if a is None else a.items()
 
 
-@intr('fmt.Sprintf')
+def has_symname(args):
+    for x in args:
+        v = x.v if isinstance(x, Iface) else x
+        if isinstance(v, (SymName, SymRope)):
+            return True
+    return False
+
+
 def _sprintf(M, a):
-    return sprintf(M, a[0], varargs(a[1]))
+    args = varargs(a[1])
+    if has_symname(args) and isinstance(a[0], str):
+        return SymRope([a[0]] + [x.v if isinstance(x, Iface) else x for x in args])
+    return sprintf(M, a[0], args)
 
 
-@intr('fmt.Errorf')
+INTR['fmt.Sprintf'] = _sprintf
+
+
 def _errorf(M, a):
     args = varargs(a[1])
+    if has_symname(args):
+        return mkerr(SymRope([a[0]] + [x.v if isinstance(x, Iface) else x for x in args]))
     wrapped = None
     if '%w' in a[0]:
         for x in args:
             if isinstance(x, Iface) and (x.t == ERR_T or 'Error' in (M.p.methods_of_dyn(x.t) if x.t in M.p.T else {})):
                 wrapped = x
     return mkerr(sprintf(M, a[0], args), wrapped)
+
+
+INTR['fmt.Errorf'] = _errorf
 
 
 @intr('errors.New')
@@ -250,11 +281,16 @@ def _sprintln(M, a):
     return sprint(M, varargs(a[0]), True)
 
 
-@intr('fmt.Println')
 def _println(M, a):
+    if has_symname(varargs(a[0])) or any(isinstance(x, Iface) and isinstance(x.v, GoMap) and x.v.has_sym() for x in varargs(a[0])):
+        M.stdout.append(SymRope(['<line with symbolic names>\n']))
+        return (0, None)
     s = sprint(M, varargs(a[0]), True)
     M.stdout.append(s)
     return (len(s), None)
+
+
+INTR['fmt.Println'] = _println
 
 
 @intr('fmt.Print')
@@ -377,6 +413,7 @@ def _(M, a):
 @intr('strings.Join')
 def _(M, a):
     items = [] if a[0] is None else a[0].items()
+    items = [x.force(M) if isinstance(x, SymName) else x for x in items]
     need_conc(*items)
     return a[1].join(items)
 
@@ -450,7 +487,9 @@ def _(M, a):
     s = a[0]
     if s is None:
         return None
-    items = sorted(s.items())
+    items = sorted(x.force(M) if isinstance(x, SymName) else x for x in s.items())
+    if M.mut_hook is not None:
+        M.mut_hook(M, 'sort', s.cell, '')
     s.cell.v[s.off:s.off + s.len] = items
     return None
 
